@@ -3476,6 +3476,10 @@ def round11_shapes(prefix):
     add("CLK D Q\nC 1 X\nC 1 X\n0 1 X\nC 1 1\nC 1 1\n", CL, [2], [["1"]], kinds=("run", "static"))
     add("A Q\nlet once = 0;\nloop(i,3)\n(i) X\nlet i = ite((i = 1) & !once, 0-1, i);\nlet once = once | (i < 0);\nend loop\n(9) X\n", AQ, [1], [["1"]])
     add("A Q\n1 X\n2 X\nlet a = 1;\nlet b = a + 1;\n", AQ, [1], [["1"]])
+    # a driver that also answers for the declared signals (it reports every non-input entry of TestCase::signals): they are
+    # evaluated from their expressions all the same - and draw
+    add("A Q V W\ndeclare V = random(10);\ndeclare W = Q + random(20);\n1 X X X\n2 X X X\nresetRandom;\n3 X X X\n(random(9)) X X X\n", AQ, [1, 2, 3], [["1", "7", "8"], ["2", "X", "0"]])
+    add("A Q V\ndeclare V = random(1000);\n1 X X\nresetRandom;\n1 X X\n", AQ, [2, 1], [["7", "1"]])
     BD = [{"name": "A", "typ": "I", "bits": 4, "default": "0"}, {"name": "IO", "typ": "B", "bits": 4, "default": "Z"}, {"name": "Q", "typ": "O", "bits": 4, "default": "-"}]
     add("A IO_out Q\n(IO) X X\n1 (IO) X\n", BD, [1, 2], [["3", "1"]], kinds=("run", "static", "bind"))
     add("A IO Q V\ndeclare V = IO + 1;\n1 Z X X\n", BD, [1, 2], [["3", "1"]], kinds=("run", "static"))
